@@ -129,6 +129,11 @@ impl World {
                 })
                 .collect();
         }
+        if self.sverif_rules && edge == "req" {
+            // `req(k: Int!)` has a required parameter without default: the `next` neighbours whose id is at least k
+            let k = params.get("k").cloned().unwrap_or(FV::Null);
+            return ds.out(v, "next").into_iter().filter(|t| matches!(ref_cmp(&ds.prop(*t, "id"), &k), Some(o) if o != std::cmp::Ordering::Less)).collect();
+        }
         ds.out(v, edge)
     }
 }
